@@ -1,3 +1,4 @@
+import threading
 from contextlib import contextmanager
 from outsourcer import Code, Yield
 from .constants import BREAK, CALL, POS, STATUS
@@ -64,16 +65,17 @@ def skip_ignored(pos, flags):
 
 # How many rule calls have been generated so far. Code that moves into a helper
 # function is a generator exactly when it contains one: the count tells.
-_rule_calls = [0]
+# (Per thread: grammars may be compiled in several threads at the same time.)
+_compilation = threading.local()
 
 
 def call_rule(func, pos):
-    _rule_calls[0] += 1
+    _compilation.rule_calls = rule_calls_generated() + 1
     return Yield((CALL, func, pos))
 
 
 def rule_calls_generated():
-    return _rule_calls[0]
+    return getattr(_compilation, 'rule_calls', 0)
 
 
 def implementation_name(name):
